@@ -59,6 +59,49 @@ const (
 
 type crashSentinel struct{}
 
+func (fs *memFS) nameOf(f *memFile) string {
+	for p, g := range fs.files {
+		if g == f {
+			return p
+		}
+	}
+	return "<unlinked>"
+}
+
+type fsImage struct {
+	files map[string][]value
+	dirs  []string
+}
+
+// snapshot copies the file system content (bytes may be symbolic terms).
+func (fs *memFS) snapshot() *fsImage {
+	img := &fsImage{files: map[string][]value{}}
+	for p, f := range fs.files {
+		// keep only up to the last written page; the rest is zeros
+		last := -1
+		for pi := range f.data.pages {
+			if pi > last {
+				last = pi
+			}
+		}
+		n := (last + 1) * pageSize
+		if n > f.data.size {
+			n = f.data.size
+		}
+		b := make([]value, n, n+1)
+		for i := 0; i < n; i++ {
+			b[i] = f.data.get(i)
+		}
+		b = append(b, f.data.size) // trailer: total size
+		img.files[p] = b
+	}
+	for d := range fs.dirs {
+		img.dirs = append(img.dirs, d)
+	}
+	sort.Strings(img.dirs)
+	return img
+}
+
 // fsEffect is called after every mutating file-system effect.
 func (ex *Exec) fsEffect(desc string) {
 	ex.fxCount++
@@ -78,6 +121,7 @@ func (ex *Exec) fsEffect(desc string) {
 	if hit {
 		ex.crashAt = nil
 		ex.extra["crashEffect"] = desc
+		ex.extra["fsimage"] = ex.fs.snapshot()
 		panic(targetPanic{v: iface{t: types.Typ[types.String], v: "VERIF-CRASH"}})
 	}
 }
